@@ -1195,6 +1195,11 @@ def run(rep, tier, seed):
     rng = common.rng_for(seed, 'C19')
     drv = common.Driver()
     quick = tier == 'quick'
+    # how SEQUENCE OF / SET OF objects read an index is translated from the source on every run (GenK.seqOfGetIdx / seqOfSetIdx;
+    # Props/C19 source_index_normalisation_is_model: = the list model's normIdx) and compared with the real objects here
+    from harness import kernels
+    kernels.obligations(rep, ['seqOfGetIdx', 'seqOfSetIdx'])
+    kernels.check(rep, drv, seed, 120 if quick else 4000, which=('seqOfIdx',))
     n_hist = 6000 if quick else 90000
     max_len = 15 if quick else 50
     n_wild = 1500 if quick else 22000
